@@ -61,21 +61,16 @@ class Dict(AbstractSpace[OrderedDict[str, Any], None]):
         ).all()
 
     def __eq__(self, other: object) -> bool:
-        if not isinstance(other, OrderedDict):
+        if not isinstance(other, Dict):
             return False
 
-        return all(
-            self_key == other_key and self_value == other_value
-            for (self_key, self_value), (other_key, other_value) in zip(
-                self.spaces.items(), other.items()
-            )
-        )
+        return dict(self.spaces) == dict(other.spaces)
 
     def __repr__(self) -> str:
         return f"Dict({', '.join(f'{key}: {repr(space)}' for key, space in self.spaces.items())})"
 
     def __hash__(self) -> int:
-        return hash(self.spaces.items())
+        return hash(frozenset(self.spaces.items()))
 
     def flatten_sample(self, sample: OrderedDict[str, Any]) -> Float[Array, " size"]:
         parts = [
